@@ -466,7 +466,7 @@ class SearchSpec(CaseSpec):
                                     prefix="v", vals_variants=False)
             else:
                 out += sc.gen_cases(cls, rng, tier, self.algos, self.whats, level=self.level_q, n_small=3, m_small=2,
-                                    nrandom=80, vals_variants=self.vals_variants)
+                                    nrandom=200, vals_variants=self.vals_variants)
                 out += sc.gen_cases(cls, rng, tier, self.algos, self.whats, level=0, n_small=3, m_small=3, nrandom=0, prefix="m")
         return out
 
@@ -902,9 +902,9 @@ class C19(CaseSpec):
         out = []
         for cls in ("D", "U"):
             out += oc.gen_enumerated(cls, rng, tier)
-            out += oc.gen_random(cls, rng, 3000 if tier == "thorough" else 150)
-            out += oc.gen_lookup(cls, rng, 2000 if tier == "thorough" else 150)
-            out += oc.gen_twins(cls, rng, 1500 if tier == "thorough" else 120)
+            out += oc.gen_random(cls, rng, 3000 if tier == "thorough" else 400)
+            out += oc.gen_lookup(cls, rng, 2000 if tier == "thorough" else 400)
+            out += oc.gen_twins(cls, rng, 1500 if tier == "thorough" else 300)
         return out
 
     def exhaustive(self, tier):
